@@ -284,14 +284,15 @@ def removesRel (w : World) (e : Ent) (rem : List Comp) : Bool :=
 /-- the table lookup of `World.remove` under the invariant: the new mask, whether a relation is
     removed, and every entity as before -/
 theorem removeCore_looked {w : World} {fl : List Nat} (h : TInv w fl) {e : Ent} (h2 : 2 ≤ e.id)
-    (hnf : e.id ∉ fl) (ha : w.alive e = true) {rem : List Comp} (hnd : rem.Nodup)
+    (hnf : e.id ∉ fl) (ha : w.alive e = true) (hsl : e.id < w.pool.ents.length)
+    {rem : List Comp} (hnd : rem.Nodup)
     (hpres : ∀ (c : Comp), c ∈ rem → (w.maskOf e).get c = true)
     {t a : Nat} {m : Mask} {rr : Bool} {w1 : World}
     (hf : findOrCreateTableRemove (w.index e.id).1 (w.maskOf e) rem w = .ok (t, a, m, rr) w1) :
     m = rem.foldl Mask.clear (w.maskOf e) ∧ rr = removesRel w e rem ∧
     (∀ (j : Nat), SameEnt w w1 j ∧ ∀ (c : Comp), targetOf w1 j c = targetOf w j c) ∧
     (∀ (x : Ent), w1.alive x = w.alive x) := by
-  obtain ⟨oldT, row, he, htm, _⟩ := h.link.live_entry h2 hnf ha
+  obtain ⟨oldT, row, he, htm, _⟩ := h.link.live_entry h2 hnf ha hsl
   have hix := index_of_get he
   have hI := h.link.idx
   obtain ⟨hT, hrow, hid⟩ := hI.indexed he htm
@@ -379,7 +380,7 @@ theorem removeCore_looked {w : World} {fl : List Nat} (h : TInv w fl) {e : Ent} 
 theorem opRemove_rel_callbacks (hro : ReadOnly run S rec) (run0 : ProbeRunner) (p : Path)
     {w : World} {fl : List Nat} (hs : ScriptsIn w.obs S) (h : TInvObs w fl)
     (hl : w.isLocked = false) {e : Ent} (h2 : 2 ≤ e.id) (hnf : e.id ∉ fl) (ha : w.alive e = true)
-    {rem : List Comp} (hne : rem ≠ []) (hnd : rem.Nodup)
+    (hsl : e.id < w.pool.ents.length) {rem : List Comp} (hne : rem ≠ []) (hnd : rem.Nodup)
     (hpres : ∀ (c : Comp), c ∈ rem → (w.maskOf e).get c = true)
     (hfew : w.tables.length < maxU32) (hrows : w.entities.length + 1 < 2 ^ 32)
     {l1 l2 : Lock} {b : Nat} (hL : LockCycle w.locks l1 b l2) :
@@ -394,11 +395,11 @@ theorem opRemove_rel_callbacks (hro : ReadOnly run S rec) (run0 : ProbeRunner) (
           (w1.reframe w.obs w.log l1) ++ w.log)
         (lockAfter2 w Ev.onRemoveComponents (removesRel w e rem) l2)) := by
   obtain ⟨w0, hop0, post⟩ := opRemove_rel_spec run0 p h.tinv hl (noObs_hasObservers w) h2 hnf ha
-    hne hnd hpres hfew hrows
+    hsl hne hnd hpres hfew hrows
   have hc0 : removeCore run0 e rem w.noObs = .ok () w0 := by
     rw [← opRemove_eq run0 p e rem w.noObs ha]; exact hop0
   obtain ⟨t, a, m, rr, w1, hf, _, hop⟩ := removeCore_transfer_ok hro run0 e rem w hs h.obs hL hc0
-  obtain ⟨em, err, hframe, hal⟩ := removeCore_looked h.tinv h2 hnf ha hnd hpres hf
+  obtain ⟨em, err, hframe, hal⟩ := removeCore_looked h.tinv h2 hnf ha hsl hnd hpres hf
   have em' : m = rem.foldl Mask.clear (w.maskOf e) := em
   have err' : rr = removesRel w e rem := err
   subst em' err'
@@ -424,7 +425,7 @@ theorem removeRel_cbs {w : World} {fl : List Nat} (st : SettingRel run S rec w f
             (.remove (w.maskOf e) (rem.foldl Mask.clear (w.maskOf e)))).map fun l => (l, e)).reverse
           ++ cbsOf w.log) := by
   obtain ⟨w1, w0, _, _, h3, h4, h5⟩ := opRemove_rel_callbacks st.ro run0 p st.scripts st.inv hl
-    he.ge2 he.notFree he.alive hne hnd hpres hfew hrows hL
+    he.ge2 he.notFree he.alive he.inPool hne hnd hpres hfew hrows hL
   exact ⟨_, _, h3, h4, h5, frameOf_reframe _ _ _ _, rfl, cbsOf_remRounds st.noCb _ _ _ _ _ _ _ _⟩
 
 end Ops
@@ -629,9 +630,9 @@ def hasRelComps (w : World) (e : Ent) : Bool := (w.tbl (w.index e.id).1).hasRela
 
 /-- under the invariant: the entity has a relation component iff some component has a target -/
 theorem hasRelComps_iff {w : World} {fl : List Nat} (h : TInv w fl) {e : Ent} (h2 : 2 ≤ e.id)
-    (hnf : e.id ∉ fl) (ha : w.alive e = true) :
+    (hnf : e.id ∉ fl) (ha : w.alive e = true) (hsl : e.id < w.pool.ents.length) :
     hasRelComps w e = true ↔ ∃ (c : Comp), (targetOf w e.id c).isSome = true := by
-  obtain ⟨oldT, row, he, htm, _⟩ := h.link.live_entry h2 hnf ha
+  obtain ⟨oldT, row, he, htm, _⟩ := h.link.live_entry h2 hnf ha hsl
   have hix := index_of_get he
   obtain ⟨hT, hrow, hid⟩ := h.link.idx.indexed he htm
   have hS := h.rel.sinv.toSInvMid
@@ -673,6 +674,7 @@ theorem hasRelComps_iff {w : World} {fl : List Nat} (h : TInv w fl) {e : Ent} (h
 theorem opRemoveEntity_rel_callbacks (hro : ReadOnly run S rec) (run0 : ProbeRunner) {w : World}
     {fl : List Nat} (hs : ScriptsIn w.obs S) (h : TInvObs w fl) (hl : w.isLocked = false)
     {e : Ent} (h2 : 2 ≤ e.id) (hnf : e.id ∉ fl) (ha : w.alive e = true)
+    (hsl : e.id < w.pool.ents.length)
     (hfew : w.tables.length + w.relationArchetypes.length + 1 ≤ maxU32)
     (hrows : 2 * w.entities.length < 2 ^ 32)
     {l1 l2 : Lock} {b : Nat} (hL : LockCycle w.locks l1 b l2) :
@@ -683,7 +685,7 @@ theorem opRemoveEntity_rel_callbacks (hro : ReadOnly run S rec) (run0 : ProbeRun
           (.entityRel (w.maskOf e)) (w.withLocks l1) ++ w.log)
         (lockAfter2 w Ev.onRemoveEntity (hasRelComps w e) l2)) := by
   obtain ⟨w0, hop0, post⟩ := opRemoveEntity_rel_spec run0 h.tinv hl (noObs_hasObservers w) h2 hnf ha
-    hfew hrows
+    hsl hfew hrows
   refine ⟨w0, hop0, post, ?_⟩
   rw [opRemoveEntity_transfer hro run0 w e hs h.obs hl ha hL, hop0]
   rfl
@@ -704,7 +706,7 @@ theorem removeEntityRel_cbs {w : World} {fl : List Nat} (st : SettingRel run S r
         (((firing w.obs Ev.onRemoveEntity (.entity (w.maskOf e))).map fun l => (l, e)).reverse
           ++ cbsOf w.log) := by
   obtain ⟨w0, h1, h2, h3⟩ := opRemoveEntity_rel_callbacks st.ro run0 st.scripts st.inv hl he.ge2
-    he.notFree he.alive hfew hrows hL
+    he.notFree he.alive he.inPool hfew hrows hL
   exact ⟨_, _, h1, h2, h3, frameOf_reframe _ _ _ _, rfl, cbsOf_remRounds st.noCb _ _ _ _ _ _ _ _⟩
 
 end Ops2
